@@ -305,3 +305,104 @@ def rule_null1(ctx: Ctx) -> RuleResult:
     if rr.instances == 0:
         raise AnalysisError("NULL-1: no container branches found in the path interpreter")
     return rr
+
+
+# ---------------------------------------------------------------------------------------------------------------
+def rule_conv_pure(ctx: Ctx) -> RuleResult:
+    """CONVPURE-1: converting a value builds new containers; the caller's sample objects are never written."""
+    rr = RuleResult("CONVPURE-1", "string conversion never writes into the objects it was given", floor=2)
+    mod = ctx.prog.module(SC)
+    funcs = [f for f in mod.all_funcs]
+    st = ("the value handed to the model (a dict or list taken from the sample) is left as it was: converted values go into "
+          "new containers, so the same sample can be used to construct a model again")
+    n = 0
+    for f in sorted(funcs, key=lambda x: x.key):
+        params = [p for p in f.params if p not in ("self", "cls")]
+        if not params:
+            continue
+        n += 1
+        rr.instances += 1
+        bad = [w for w in ctx.effects.events(f) if w.root.startswith("param:") and w.root[6:] in params
+               and w.kind in ("item", "mutcall", "attr") and not (w.kind == "attr" and w.root[6:] in ("cls", "fn", "func", "wrap_fn"))]
+        # attribute writes on functions / classes being decorated are set-up, not data
+        bad = [w for w in bad if not (w.kind == "attr" and (w.path.endswith(".__name__") or w.path.endswith(".__doc__")))]
+        if bad:
+            w = bad[0]
+            rr.ob(f.relpath, f.qualname, w.path[:80], st, VIOLATED,
+                  f"`{w.path[:50]}` writes into parameter `{w.root[6:]}`: the caller's sample is rewritten in place and a "
+                  f"second construction from it receives already-converted objects", w.line)
+        else:
+            rr.ob(f.relpath, f.qualname, f.name, st, DISCHARGED, "parameters are only read", f.node.lineno)
+    if n < 2:
+        raise AnalysisError(f"CONVPURE-1: only {n} functions with parameters in string_converters.py")
+    return rr
+
+
+ONE_SHOT = ("map", "filter", "zip", "iter", "reversed", "enumerate", "itertools.chain", "chain", "itertools.islice", "islice")
+
+
+def one_shot_captures(tree: ast.AST) -> List[Tuple[ast.AST, ast.AST, str, ast.AST]]:
+    """(outer function, inner function, name, use) where the inner function, which outlives the call that defined it,
+    iterates a variable of the outer function that holds a one-shot iterator."""
+    out = []
+
+    def own_nodes(fn):
+        stack = list(ast.iter_child_nodes(fn))
+        while stack:
+            x = stack.pop()
+            yield x
+            if isinstance(x, (ast.FunctionDef, ast.AsyncFunctionDef, ast.Lambda, ast.ClassDef)):
+                continue
+            stack.extend(ast.iter_child_nodes(x))
+
+    for outer in ast.walk(tree):
+        if not isinstance(outer, (ast.FunctionDef, ast.AsyncFunctionDef)):
+            continue
+        defs: Dict[str, List[ast.AST]] = {}
+        for x in own_nodes(outer):
+            if isinstance(x, (ast.Assign, ast.AnnAssign)) and getattr(x, "value", None) is not None:
+                for t in (x.targets if isinstance(x, ast.Assign) else [x.target]):
+                    if isinstance(t, ast.Name):
+                        defs.setdefault(t.id, []).append(x.value)
+        for p in outer.args.posonlyargs + outer.args.args + outer.args.kwonlyargs:
+            defs.setdefault(p.arg, [])  # parameters: value unknown unless reassigned
+        one_shot = {nm for nm, vs in defs.items() if vs and all(
+            isinstance(v, ast.GeneratorExp) or (isinstance(v, ast.Call) and norm(v.func) in ONE_SHOT) for v in vs)}
+        if not one_shot:
+            continue
+        for inner in own_nodes(outer):
+            if not isinstance(inner, (ast.FunctionDef, ast.AsyncFunctionDef, ast.Lambda)):
+                continue
+            # everything below `inner`, nested closures included (they outlive the call as well)
+            local = {a.arg for a in inner.args.posonlyargs + inner.args.args + inner.args.kwonlyargs}
+            for x in ast.walk(inner):
+                if isinstance(x, ast.Name) and isinstance(x.ctx, ast.Store):
+                    local.add(x.id)
+            for x in ast.walk(inner):
+                if x is inner:
+                    continue
+                if isinstance(x, ast.Name) and isinstance(x.ctx, ast.Load) and x.id in one_shot and x.id not in local:
+                    out.append((outer, inner, x.id, x))
+    return out
+
+
+def rule_iter1(ctx: Ctx) -> RuleResult:
+    rr = RuleResult("ITER-1", "a function that is called once per instance does not consume a one-shot iterator of its factory", floor=1)
+    ctl = ast.parse("def deco(paths):\n    paths = map(str, paths)\n    def post(self):\n        for p in paths:\n            pass\n    return post\n")
+    if len(one_shot_captures(ctl)) != 1:
+        raise AnalysisError("ITER-1: positive control failed")
+    st = ("what a decorator factory computes once is still there for the second, third, ... instance: an iterator (map, "
+          "filter, zip, generator expression) captured by the per-instance function is empty after its first use")
+    n_mod = 0
+    for m in ctx.prog.pkg_modules():
+        n_mod += 1
+        for outer, inner, name, use in one_shot_captures(m.tree):
+            rr.instances += 1
+            iname = getattr(inner, "name", "<lambda>")
+            rr.ob(m.relpath, f"{outer.name}.<locals>.{iname}", norm(use), st, VIOLATED,
+                  f"`{name}` is bound to a one-shot iterator in {outer.name} and read in {iname}, which runs once per call: "
+                  f"only the first call sees its elements", use.lineno)
+    rr.instances += 1
+    rr.ob("json_to_models", "<package>", f"{n_mod} modules", st, DISCHARGED,
+          "no closure reads a one-shot iterator of its enclosing function (positive control matched)", 1)
+    return rr
